@@ -279,7 +279,17 @@ def annotate_fn(text, item: Fn, log, where):
             k = int(me.group(1))
             if k >= len(loops):
                 raise AnchorLost(f"{where}: loop #{k} not found for ghost anchor")
-            inserts.append((match_delim(m, body_open + loops[k][1]), "\n" + gt + "\n"))
+            close_k = match_delim(m, body_open + loops[k][1])
+            inserts.append((close_k, "\n" + gt + "\n"))
+            # ... and in front of every `continue` that ends an iteration of THIS loop early (not one of a nested loop): the same bookkeeping step
+            for mc in re.finditer(r"\bcontinue\b", m[body_open + loops[k][1]:close_k]):
+                at = body_open + loops[k][1] + mc.start()
+                inner = [lp for lp in loops if lp is not loops[k] and body_open + lp[1] > body_open + loops[k][1]
+                         and body_open + lp[1] < at < match_delim(m, body_open + lp[1])]
+                if inner:
+                    continue
+                inserts.append((at, "{ " + gt + " "))
+                inserts.append((at + len("continue"), " }"))
             continue
         mh = re.match(r"@loop-body:(.+)$", anchor)
         if mh:
